@@ -2,7 +2,9 @@ package rules
 
 import (
 	"fmt"
+	"go/token"
 	"go/types"
+	"sort"
 	"strings"
 
 	"golang.org/x/tools/go/ssa"
@@ -11,7 +13,7 @@ import (
 )
 
 func init() {
-	register("C03", "Decides the structural part of path shape for both engines and all first/last TTL pairs: (R03.1) every store into the engine's slot table writes a ReceiveProbe result that passed validateProbe (or travelled the retryable edge, on which every module driver returns a nil response by C01 R01.7) at the index probe.TTL of that same value; (R03.2) the table length is int(MaxTTL)+1 computed in int; (R03.3) validate() precedes everything and every success return is clipResults(MinTTL, table) while every error return carries a nil slice; (R03.4) each protocol entry point hands ToHops the same parameters it gave the engine and returns ToHops' slice as Hops unmodified; (R03.5) validateProbe accepts only non-nil probes with MinTTL <= TTL <= MaxTTL and ToHops numbers entries MinTTL+i. The arithmetic inside clipResults (lowest destination wins, non-empty, consecutive) needs a relational argument and is not decided. (R03.4 also) ToHops receives the engine's slice as a whole (result #0, or the Hops field of the ICMP/SACK helper's result), not a re-slice of it.", runC03)
+	register("C03", "Decides the structural part of path shape for both engines and all first/last TTL pairs: (R03.1) every store into the engine's slot table writes a ReceiveProbe result that passed validateProbe (or travelled the retryable edge, on which every module driver returns a nil response by C01 R01.7) at the index probe.TTL of that same value; (R03.2) the table length is int(MaxTTL)+1 computed in int; (R03.3) validate() precedes everything and every success return is clipResults(MinTTL, table) while every error return carries a nil slice; (R03.4) each protocol entry point hands ToHops the same parameters it gave the engine and returns ToHops' slice as Hops unmodified; (R03.5) validateProbe accepts only non-nil probes with MinTTL <= TTL <= MaxTTL and ToHops numbers entries MinTTL+i. (R03.6) the search for the index at which clipResults cuts the table is decided for the recognised forms (slices.IndexFunc with the predicate x != nil && x.IsDest; an ascending scan that stops at, or guards after, its first hit; a descending scan that runs to exhaustion) and reported as undecided information otherwise; the remaining arithmetic of clipResults (non-empty, MinTTL offset) is not decided. (R03.4 also) ToHops receives the engine's slice as a whole (result #0, or the Hops field of the ICMP/SACK helper's result), not a re-slice of it.", runC03)
 	darwinRules["C03"] = runC03
 }
 
@@ -73,6 +75,7 @@ func runC03(c *Ctx) {
 	checkValidateProbe(c)
 	checkToHops(c)
 	checkEntryHops(c)
+	checkClipSearch(c)
 }
 
 func firstPath(f *ssa.Function, b *ssa.BasicBlock) []*core.Path {
@@ -419,4 +422,208 @@ func checkEntryHops(c *Ctx) {
 		}
 		R.Floor("R03.4:helper-success:"+name, nok, 1)
 	}
+}
+
+// checkClipSearch is R03.6: "the list ends at the LOWEST TTL answered by the destination". clipResults cuts the table at an index D;
+// the rule recognises how D is searched and decides the recognised forms:
+//   - slices.IndexFunc(results, pred): first hit by the library's contract; pred must be `x != nil && x.IsDest`;
+//   - an ascending scan: every assignment of D must leave the loop at once (first hit wins) or be guarded by "D not yet set";
+//   - a descending scan: must run to exhaustion (the last assignment is the lowest index); any other exit leaves lower indices
+//     unexamined, and an exit right after a hit makes the HIGHEST index win.
+// A form outside these is reported as information only (not decided): correct rewrites exist that no shape rule can foresee.
+func checkClipSearch(c *Ctx) {
+	R := c.R
+	f := c.P.Func("common.clipResults")
+	if f == nil {
+		R.Fail("R03.6", "common.clipResults#anchor", 0, "", "anchor common.clipResults no longer resolves")
+		return
+	}
+	fn := core.FuncName(f)
+	var D ssa.Value
+	var at ssa.Instruction
+	for _, b := range f.Blocks {
+		for _, in := range b.Instrs {
+			sl, ok := in.(*ssa.Slice)
+			if !ok || sl.High == nil {
+				continue
+			}
+			if bo, ok := sl.High.(*ssa.BinOp); ok && bo.Op == token.ADD {
+				if cst, ok := bo.Y.(*ssa.Const); ok && cst.Value != nil && cst.Int64() == 1 {
+					D, at = bo.X, in
+				}
+			}
+		}
+	}
+	if D == nil {
+		R.Info("R03.6", fn+"#cut", f.Pos(), fn, "no results[:D+1] cut found: the search for the destination index is not decided")
+		return
+	}
+	for {
+		if cv, ok := D.(*ssa.Convert); ok {
+			D = cv.X
+			continue
+		}
+		break
+	}
+	isDestPred := func(g *ssa.Function) bool {
+		rps, ok := core.ReturnPaths(c.P, g, 200)
+		if !ok || len(g.Params) != 1 {
+			return false
+		}
+		ntrue := 0
+		for _, rp := range rps {
+			if len(rp.Results) != 1 || !rp.Results[0].IsConst("true") && rp.Results[0].Op != "field" {
+				continue
+			}
+			// `return pr != nil && pr.IsDest` compiles to a phi / a path returning the IsDest load after the nil test
+			nn, isd := false, false
+			for _, a := range rp.Atoms {
+				n := a.Norm()
+				s := n.Cond.String()
+				if strings.Contains(s, "== nil") && !n.Sign {
+					nn = true
+				} else if strings.HasSuffix(s, ".IsDest") && n.Sign {
+					isd = true
+				} else {
+					return false
+				}
+			}
+			if rp.Results[0].Op == "field" && rp.Results[0].Name == "IsDest" {
+				isd = true
+			}
+			if nn && isd {
+				ntrue++
+			}
+		}
+		return ntrue > 0
+	}
+	switch d := D.(type) {
+	case *ssa.Call:
+		name := core.CalleeName(d.Common())
+		if !strings.HasPrefix(name, "slices.IndexFunc") {
+			R.Info("R03.6", fn+"#search", d.Pos(), fn, "the cut index comes from "+name+": not decided")
+			return
+		}
+		var pred *ssa.Function
+		switch a := d.Common().Args[1].(type) {
+		case *ssa.MakeClosure:
+			pred, _ = a.Fn.(*ssa.Function)
+		case *ssa.Function:
+			pred = a
+		}
+		R.Check(pred != nil && isDestPred(pred), "R03.6", fn+"#search", d.Pos(), fn, "cut index = slices.IndexFunc(results, x != nil && x.IsDest): the first, i.e. lowest, destination answer", "the predicate handed to slices.IndexFunc is not `x != nil && x.IsDest`: the list is not cut at the lowest destination answer")
+		return
+	case *ssa.Phi:
+		// the web of phis that carry D
+		web := map[*ssa.Phi]bool{}
+		var grow func(p *ssa.Phi)
+		grow = func(p *ssa.Phi) {
+			if web[p] {
+				return
+			}
+			web[p] = true
+			for _, e := range p.Edges {
+				if q, ok := e.(*ssa.Phi); ok {
+					grow(q)
+				}
+			}
+		}
+		grow(d)
+		type hit struct {
+			phi  *ssa.Phi
+			from *ssa.BasicBlock
+			val  ssa.Value
+		}
+		var hits []hit
+		for p := range web {
+			for i, e := range p.Edges {
+				if _, isPhi := e.(*ssa.Phi); isPhi {
+					continue
+				}
+				if cst, ok := e.(*ssa.Const); ok && cst.Value != nil && cst.Int64() < 0 {
+					continue // "not found"
+				}
+				hits = append(hits, hit{p, p.Block().Preds[i], e})
+			}
+		}
+		if len(hits) == 0 {
+			R.Info("R03.6", fn+"#search", at.Pos(), fn, "no assignment of the cut index found: not decided")
+			return
+		}
+		sort.Slice(hits, func(i, j int) bool { return hits[i].from.Index < hits[j].from.Index })
+		for hi, h := range hits {
+			key := fmt.Sprintf("%s#search[hit%d]", fn, hi)
+			loop := innermostLoop(f, h.from)
+			if loop == nil {
+				R.Info("R03.6", key, at.Pos(), fn, "the cut index is assigned outside a loop: not decided")
+				continue
+			}
+			// direction of the scan: a header phi stepped by a constant
+			var header *ssa.BasicBlock
+			for b := range loop {
+				for _, p := range b.Preds {
+					if !loop[p] {
+						header = b
+					}
+				}
+			}
+			dir := 0
+			if header != nil {
+				for _, in := range header.Instrs {
+					p, ok := in.(*ssa.Phi)
+					if !ok {
+						break
+					}
+					for _, e := range p.Edges {
+						if bo, ok := e.(*ssa.BinOp); ok && bo.X == ssa.Value(p) {
+							if cst, ok := bo.Y.(*ssa.Const); ok && cst.Value != nil {
+								step := cst.Int64()
+								if bo.Op == token.SUB {
+									step = -step
+								}
+								if step > 0 {
+									dir = 1
+								} else if step < 0 {
+									dir = -1
+								}
+							}
+						}
+					}
+				}
+			}
+			// exits of the loop other than from its header
+			early := 0
+			for b := range loop {
+				for _, s := range b.Succs {
+					if !loop[s] && b != header {
+						early++
+					}
+				}
+			}
+			leaves := !loop[h.phi.Block()]
+			switch dir {
+			case 1:
+				guarded := false
+				for b := h.from; b != nil; b = b.Idom() {
+					if iff, ok := b.Instrs[len(b.Instrs)-1].(*ssa.If); ok {
+						if bo, ok := iff.Cond.(*ssa.BinOp); ok {
+							if p, ok := bo.X.(*ssa.Phi); ok && web[p] {
+								guarded = true
+							}
+						}
+					}
+					if b == header {
+						break
+					}
+				}
+				R.Check(leaves || guarded, "R03.6", key, at.Pos(), fn, "ascending scan: the first destination answer ends the search (or later ones are guarded by 'not yet found')", "ascending scan keeps going after a destination answer and overwrites the index: the HIGHEST TTL answered by the destination would end the list, not the lowest")
+			case -1:
+				R.Check(early == 0, "R03.6", key, at.Pos(), fn, "descending scan runs to exhaustion: the last assignment is the lowest destination answer", fmt.Sprintf("descending scan can leave the loop early (%d exit(s) besides the loop condition): destination answers at lower TTLs are not examined, so the list can end above the lowest TTL the destination answered", early))
+			default:
+				R.Info("R03.6", key, at.Pos(), fn, "scan direction not recognised: not decided")
+			}
+		}
+		return
+	}
+	R.Info("R03.6", fn+"#search", at.Pos(), fn, fmt.Sprintf("the cut index is a %T: not decided", D))
 }
